@@ -9,8 +9,8 @@ as a function on character data with the law "text made of XML 1.0 characters su
 (validated on every run by the correspondence and by the whole-workbook oracle).
 -/
 import XlModel.Lemmas.Bstr
-import XlModel.Lemmas.Grid
-import XlModel.Lemmas.Grid2
+import XlModel.Lemmas.SaveGrid
+import XlModel.Lemmas.SaveGrid2
 
 namespace XlModel.Props.C01
 open XlModel XlModel.Bstr XlModel.Grid
@@ -161,7 +161,7 @@ theorem trim_densify_obs_partial (s : List Row) (h : Dense s) (out : List (List 
     (hdense : ∀ i (h2 : i < out.length), DenseRow i out[i])
     (hcontent : ∀ i (h1 : i < s.length) (h2 : i < out.length) (j : Nat),
       (out[i][j]?.map content).getD noContent = (s[i].cells[j]?.map content).getD noContent) :
-    ∃ s', cycle s = .ok s' ∧ Dense s' ∧ (∀ i j, abs s' i j = abs s i j) ∧
+    ∃ s', cycle s = .ok s' ∧ Dense s' ∧ (∀ i j, Grid.abs s' i j = Grid.abs s i j) ∧
       s'.map (fun r => (r.r, r.attrs)) = s.map (fun r => (r.r, r.attrs)) := by
   have hlen := trimRow_length s
   have hcs := checkSheet_after_trim s h
@@ -183,7 +183,7 @@ theorem trim_densify_obs_partial (s : List Row) (h : Dense s) (out : List (List 
       simp only [Option.map_some, Option.some.injEq, Prod.mk.injEq] at hm
       exact ⟨by rw [hm.1]; exact (h.2 i (by omega)).1, hdense i (by omega)⟩
   · intro i j
-    unfold abs
+    unfold Grid.abs
     by_cases hi : i < s.length
     · have hi2 : i < (List.zipWith (fun (r : Row) cs => { r with cells := cs }) (trimRow s) out).length := by
         simp only [List.length_zipWith]; omega
